@@ -518,6 +518,11 @@ func GenE2(prop string, seed uint64) *Program {
 				ctl = append(ctl, Op{Kind: "DropColl", Coll: 1, Handle: r.Intn(2)})
 			case t < 7:
 				fs := FeedSpec{ID: fmt.Sprintf("dump%d", i), Handle: r.Intn(2), Coll: r.Intn(2), Backfill: "zero", Dump: true}
+				if r.Chance(40) {
+					// a bucket-level feed over both collections joins in mid-run (its start may be hit by an
+					// injected failure: that must not cost the feeds already running anything)
+					fs = FeedSpec{ID: fmt.Sprintf("late%d", i), Handle: r.Intn(2), Bucket: true, Backfill: []string{"", "zero"}[r.Intn(2)]}
+				}
 				ctl = append(ctl, Op{Kind: "StartFeed", Feed: &fs})
 			case t < 9:
 				h := r.Intn(2)
